@@ -521,6 +521,20 @@ Proof.
     pose proof (F2_kA_kD kv I P) as X. apply touches_In in X. congruence.
 Qed.
 
+(** ** the address counters come back (whatever the receipts) *)
+Lemma count_restore k : Qcount k = true -> cntz m2 k = cntz m k.
+Proof.
+  intro Q. pose proof (count_after_add k Q) as E1. pose proof (count_after_del k Q) as E2.
+  assert (T : op_touch k oD = op_touch k oA).
+  { unfold oA, oD. destruct (c_addrindex c); [rewrite ai_ops_neg; apply op_touch_neg|reflexivity]. }
+  assert (Sg : op_sum k oD = - op_sum k oA).
+  { unfold oA, oD. destruct (c_addrindex c); [rewrite ai_ops_neg; apply op_sum_neg|reflexivity]. }
+  rewrite T, Sg in E2. unfold cntz at 1. rewrite E2.
+  destruct (op_touch k oA).
+  - unfold cntz at 1. rewrite E1. lia.
+  - unfold cntz. rewrite E1. reflexivity.
+Qed.
+
 (** ** the counters come back *)
 Hypothesis G : all_local_ok b = true.
 
